@@ -42,7 +42,7 @@ class Doc:
         w = prefix + ''.join(rng.choice(MARK_LETTERS) for _ in range(
             rng.randint(2, 4))) + str(len(self.words)) + 'k'
         if rng.random() < 0.15:
-            w += rng.choice(['é', 'ß', 'Ж', 'ü'])
+            w += rng.choice(['é', 'ß', 'я', 'ü'])
         self.words.append((w, self.n))
         self.word_flow[w] = self.flow
         self.add(w)
